@@ -26,6 +26,7 @@ class Fut:
         self.st = st
         self.guard = guard  # ghost: 0 bare, 1 cancelled by an event (cancel_on_event), 2 bounded by a timeout (wait_for)
         self.cbs = []
+        self.exc = None
 
     def done(self):
         return self.st != PENDING
@@ -48,14 +49,72 @@ class Fut:
         if self.st != PENDING:
             raise asyncio.InvalidStateError('invalid state')
         self.st = EXCEPTION
+        self.exc = exception
 
     def add_done_callback(self, fn):
         self.cbs = self.cbs + [fn]
 
 
-class TaskFut(Fut):
-    """a Task: same state machine; cancel() requests cancellation (the coroutine is thrown CancelledError at its next
-    resumption -- A1: it then finishes cancelled unless it swallows the error, which no wrapped coroutine of the kernel does)"""
+class TaskFut(Fut, asyncio.Task):
+    """a Task (isinstance(x, asyncio.Task) holds): same state machine; cancel() requests cancellation -- the coroutine
+    is thrown CancelledError at its next resumption and the task then finishes cancelled unless the coroutine swallows
+    the error (environment assumption: the wrapped coroutines do not)"""
+
+    def __new__(cls, *args, **kwargs):
+        return asyncio.Task.__new__(cls)
+
+    def __init__(self, st=PENDING, guard=0):  # asyncio.Task.__init__ is deliberately not called: no coroutine, no loop
+        Fut.__init__(self, st, guard)
+
+    def __del__(self):
+        pass
+
+    def __repr__(self):
+        return f'<TaskFut st={self.st}>'
+
+
+def run_done_callbacks(fut):
+    """what the event loop does once a future is finished: call its done-callbacks (each once, in order)"""
+    cbs = fut.cbs
+    fut.cbs = []
+    for cb in cbs:
+        cb(fut)
+
+
+class RecEmitter:
+    """pyee.EventEmitter reduced to its listener table: on / remove_listener / emit, with pyee's behaviour for a
+    listener that is not registered (remove_listener raises KeyError)"""
+
+    def __init__(self):
+        self.listeners = []
+
+    def on(self, event, fn):
+        self.listeners = self.listeners + [(event, fn)]
+        return fn
+
+    def remove_listener(self, event, fn):
+        kept = []
+        found = False
+        for e, f in self.listeners:
+            if not found and e == event and f is fn:
+                found = True
+            else:
+                kept = kept + [(e, f)]
+        if not found:
+            raise KeyError(fn)
+        self.listeners = kept
+
+    def emit(self, event, *args):
+        for e, f in list(self.listeners):
+            if e == event:
+                f(*args)
+
+    def count(self, event):
+        n = 0
+        for e, f in self.listeners:
+            if e == event:
+                n = n + 1
+        return n
 
 
 def fut_released(f):
@@ -69,10 +128,14 @@ def fst(f):
 
 
 FUT_MODEL = 'contracts.c16_env:Fut'
-model(FUT_MODEL, fields=dict(st=IntRange(0, 3), guard=IntRange(0, 2), cbs=Const([])), build=lambda fields, b: _build_fut(Fut, fields))
-model('contracts.c16_env:TaskFut', fields=dict(st=IntRange(0, 3), guard=IntRange(0, 2), cbs=Const([])), build=lambda fields, b: _build_fut(TaskFut, fields))
+model(FUT_MODEL, fields=dict(st=IntRange(0, 3), guard=IntRange(0, 2), cbs=Const([]), exc=Const(None)), build=lambda fields, b: _build_fut(Fut, fields))
+model('contracts.c16_env:TaskFut', fields=dict(st=IntRange(0, 3), guard=IntRange(0, 2), cbs=Const([]), exc=Const(None)), build=lambda fields, b: _build_fut(TaskFut, fields))
 FUT = Inst(FUT_MODEL)
+TASKFUT = Inst('contracts.c16_env:TaskFut')
+NEW_FUT = Inst(FUT_MODEL, st=Const(PENDING), guard=Const(0))  # what loop.create_future() returns
 FUT_INLINE = ['Fut.*', 'TaskFut.*']
+model('contracts.c16_env:RecEmitter', fields=dict(listeners=Const([])), build=lambda fields, b: RecEmitter())
+EMITTER = Inst('contracts.c16_env:RecEmitter')
 
 
 def _build_fut(cls, fields):
